@@ -730,6 +730,73 @@ func crossRead(from, to *Msg, variant, only int, dir string) (problems []string)
 			problems = append(problems, fmt.Sprintf("%s: after Merge through the other version field %s (tag %d) reads %s, written %s (unknown fields must be preserved)", dir, f.Name, f.Tag, clip(got), clip(exp)))
 		}
 	}
+	// the same upgrade on a NESTED message: an envelope (dynamic API) has already written fields of its own, the
+	// upgrader opens a nested message, writes one field it knows and merges the old message into it
+	src := call(m, "Unwrap")[0].Interface().(spec.Message)
+	var tags []uint16
+	for i := 0; i < src.Fields(); i++ {
+		if t, ok := src.TagAt(i); ok {
+			tags = append(tags, t)
+		}
+	}
+	for layout := 0; layout < 2 && len(tags) > 0; layout++ {
+		env := []uint16{60001, 60002}
+		if layout == 1 {
+			env = append([]uint16{}, tags...)
+			if len(env) > 2 {
+				env = env[len(env)-2:]
+			}
+		}
+		ew := spec.NewMessageWriter()
+		for i, t := range env {
+			if err := ew.Field(t).Int32(int32(100 + i)); err != nil {
+				return append(problems, fmt.Sprintf("%s: envelope: %v", dir, err))
+			}
+		}
+		sub := ew.Field(50).Message()
+		if err := sub.Field(tags[0]).Any(src.Field(tags[0])); err != nil {
+			return append(problems, fmt.Sprintf("%s: nested known field: %v", dir, err))
+		}
+		if err := sub.Merge(src); err != nil {
+			return append(problems, fmt.Sprintf("%s: nested Merge: %v", dir, err))
+		}
+		if err := sub.End(); err != nil {
+			return append(problems, fmt.Sprintf("%s: nested End: %v", dir, err))
+		}
+		if err := ew.Field(61000).Bool(true); err != nil {
+			return append(problems, fmt.Sprintf("%s: envelope tail: %v", dir, err))
+		}
+		eb, err := ew.Build()
+		if err != nil {
+			return append(problems, fmt.Sprintf("%s: envelope Build: %v", dir, err))
+		}
+		em, err := spec.OpenMessageErr(eb)
+		if err != nil {
+			return append(problems, fmt.Sprintf("%s: envelope does not open: %v", dir, err))
+		}
+		nested := em.Message(50)
+		if nested.Fields() != len(tags) {
+			problems = append(problems, fmt.Sprintf("%s: nested Merge (envelope layout %d): the merged message has %d fields, the source has %d (a field was duplicated or dropped)", dir, layout, nested.Fields(), len(tags)))
+		}
+		nb, err := from.Open(nested.Raw())
+		if err != nil {
+			return append(problems, fmt.Sprintf("%s: original version cannot open the nested merged message: %v", dir, err))
+		}
+		mn := reflect.ValueOf(nb)
+		for i, f := range from.Fields {
+			if only >= 0 && only != i {
+				continue
+			}
+			if got, exp := readField(mn, f, 0), expectField(f, variant, 0); got != exp {
+				problems = append(problems, fmt.Sprintf("%s: after a nested Merge (envelope layout %d) field %s (tag %d) reads %s, written %s (unknown fields must be preserved)", dir, layout, f.Name, f.Tag, clip(got), clip(exp)))
+			}
+		}
+		for i, t := range env {
+			if got := em.Int32(t); got != int32(100+i) {
+				problems = append(problems, fmt.Sprintf("%s: envelope field %d reads %d after a nested Merge, written %d", dir, t, got, 100+i))
+			}
+		}
+	}
 	return
 }
 
